@@ -193,13 +193,19 @@ class LenInterp(object):
                 fn = self.methods[c.func.attr]
                 bound_self = SELF
         if fn is None:
+            # a function outside this module: its value is unknown; it cannot
+            # touch the cell unless the object itself is handed to it
             name = pyfront.unparse(c.func)
-            if name in ("int", "super", "isinstance", "type", "len", "repr", "str"):
-                sts = [st]
-                for a in c.args:
-                    sts = [s3 for s2 in sts for _v, s3 in self.ev(a, s2, depth)]
-                return [(OTHER, s2) for s2 in sts]
-            raise AnalysisError("Length: call of %s cannot be resolved (%s:%s)" % (name, REL, c.lineno))
+            sts = [([], st)]
+            for a in list(c.args) + [k.value for k in c.keywords]:
+                sts = [(vs + [v], s3) for vs, s2 in sts for v, s3 in self.ev(a, s2, depth)]
+            if isinstance(c.func, ast.Attribute):
+                sts = [(vs + [v], s3) for vs, s2 in sts for v, s3 in self.ev(c.func.value, s2, depth)]
+            for vs, _s in sts:
+                if any(v is SELF for v in vs):
+                    raise AnalysisError("Length: the object is passed to %s, which cannot be "
+                                        "resolved (%s:%s)" % (name, REL, c.lineno))
+            return [(OTHER, s2) for _vs, s2 in sts]
         # evaluate arguments left to right
         combos = [([], st)]
         for a in c.args:
